@@ -7,7 +7,8 @@
    under-approximates a recorded probe); HashInstProofs.momo_instances_ok proves them for the functions REGENERATED
    from the headers.  `hall s` = all items stored in all generations; `spec_step` = the abstract finite map. *)
 From Coq Require Import ZArith List Permutation.
-From C01 Require Import HashModel HashSpec HashProofs HashInst HashInstProofs.
+From C01 Require Import HashModel HashSpec HashProofs HashInst HashInstProofs BucketFind.
+From C01 Require Gen_LimP4 Gen_Open2N2 Gen_OpenN1.
 Import ListNotations.
 Local Open Scope Z_scope.
 
@@ -119,3 +120,110 @@ Theorem C01_nonvacuous_multigen :
       (next_fn (c_probing nv_cfg)) max_log (Binv_of (c_bound nv_cfg)) nv_state.
 Proof. exact nonvacuous_multigen. Qed.
 Print Assumptions C01_nonvacuous_multigen.
+
+(* ---------- composite operations as first-class model operations: a pair of containers a, b + an ExtractedItem holder ----------
+   WExtract = a.Extract(a.Find(k)) into the holder (pvExtract/pvRemove), WInsertExt = a.Insert(ExtractedItem&&) (the holder keeps
+   the item when the key is present), WSwap, WMoveAB = b = std::move(a), WMergeAB = a.MergeTo(b) (spec: union with destination
+   priority, the source keeps the refused items); OAddAt (Add(pos,item) after a failed Find), OSetVal (value / ResetKey through
+   the position) and OInsertNoMem (overloadIfCannotGrow: refused bucket-array allocation -> pvAddNogrow on the existing table,
+   mCount may exceed mCapacity) are ordinary `op`s covered by C01_step_refines.  A MergeTo interrupted by an exception of the
+   destination gives the basic guarantee: both invariants hold and the union of the contents is unchanged. *)
+Theorem C01_world_step_refines :
+  forall B b0 decode upd_bound h cap unlimited wf0 wfThr start next logStart calcCapacity shift maxLog Binv,
+    ModelOK B b0 decode upd_bound cap unlimited wfThr start next logStart shift maxLog Binv ->
+    forall w m o w' x,
+      WR B b0 decode h cap unlimited wf0 start next maxLog Binv w m ->
+      wstep B b0 decode upd_bound h cap unlimited wf0 wfThr start next logStart calcCapacity shift maxLog w o = (w', x) ->
+      (x = RExn /\ (w' = w \/ exists m', WR B b0 decode h cap unlimited wf0 start next maxLog Binv w' m' /\ o = WMergeAB /\
+          Permutation (fst (fst m') ++ snd (fst m')) (fst (fst m) ++ snd (fst m)) /\ snd m' = snd m)) \/
+      (WR B b0 decode h cap unlimited wf0 start next maxLog Binv w' (fst (wspec_step m o)) /\ out_equiv x (snd (wspec_step m o))).
+Proof. exact world_step_refines. Qed.
+Print Assumptions C01_world_step_refines.
+
+Theorem C01_momo_world_refines_all_histories :
+  forall c (h : Z -> Z), cfg_valid c -> forall os,
+    no_merge_exn os (snd (wrun_gen c h winit_cfg os)) ->
+    WR BS bs0 (decode_fn (c_bound c)) h (c_cap c) (c_unlimited c) (c_wf0 c) start_fn (next_fn (c_probing c)) max_log (Binv_of (c_bound c))
+       (fst (wrun_gen c h winit_cfg os)) (fst (wspec_run ([], [], None) os (snd (wrun_gen c h winit_cfg os)))) /\
+    Forall2 out_equiv (snd (wrun_gen c h winit_cfg os)) (snd (wspec_run ([], [], None) os (snd (wrun_gen c h winit_cfg os)))).
+Proof. exact momo_world_refines_all_histories. Qed.
+Print Assumptions C01_momo_world_refines_all_histories.
+
+(* ---------- "Hash table is full" is unreachable ----------
+   If the probe sequence of every hash code visits every bucket within bucketCount probes and CalcCapacity(bc) <= maxCount*bc,
+   then in every reachable state (Inv + mCapacity <= maxCount * bucketCount of the newest table) an insert of an absent key
+   can only throw from pvAddGrow's MOMO_CHECK(newCapacity > mCount) / the length_error bound: pvAddNogrow never reports
+   "Hash table is full" when mCount < mCapacity, and the fresh table of pvAddGrow always accepts the item.  Buckets without
+   a bound (UnlimP; `unlimited`) are never full at all. *)
+Theorem C01_never_table_full :
+  forall B b0 decode upd_bound h cap unlimited wf0 wfThr start next logStart calcCapacity shift maxLog Binv,
+    ModelOK B b0 decode upd_bound cap unlimited wfThr start next logStart shift maxLog Binv ->
+    (forall hc log b, 0 <= log <= maxLog -> 0 <= b < 2 ^ log ->
+       exists p : nat, Z.of_nat p < 2 ^ log /\ path start next hc (2 ^ log) p = b) ->
+    forall s k v bud s',
+      Reach B b0 decode h cap unlimited wf0 start next maxLog Binv s ->
+      step B b0 decode upd_bound h cap unlimited wf0 wfThr start next logStart calcCapacity shift maxLog s (OInsert k v bud) = (s', RExn) ->
+      ~ (count s < capacity s) /\
+      (calcCapacity (2 ^ newLog B logStart shift (gens s)) <= count s \/ maxLog < newLog B logStart shift (gens s)).
+Proof. exact never_table_full. Qed.
+Print Assumptions C01_never_table_full.
+
+(* momo's probing schemes (linear: BucketBase / LimP4; triangular: Open2N2 / Open8) visit every bucket, and the mirrored
+   CalcCapacity formulas fit the table *)
+Theorem C01_momo_probe_cover :
+  forall probing hc log b, 0 <= log <= max_log -> 0 <= b < 2 ^ log ->
+    exists p : nat, Z.of_nat p < 2 ^ log /\ path start_fn (next_fn probing) hc (2 ^ log) p = b.
+Proof. exact momo_probe_cover. Qed.
+Print Assumptions C01_momo_probe_cover.
+
+Theorem C01_momo_reachable_all_histories :
+  forall c (h : Z -> Z), cfg_valid c -> forall os,
+    Reach BS bs0 (decode_fn (c_bound c)) h (c_cap c) (c_unlimited c) (c_wf0 c) start_fn (next_fn (c_probing c)) max_log
+          (Binv_of (c_bound c)) (fst (run_gen c h init_cfg os)).
+Proof. exact momo_reachable_all_histories. Qed.
+Print Assumptions C01_momo_reachable_all_histories.
+
+Theorem C01_momo_never_table_full :
+  forall c (h : Z -> Z), cfg_valid c -> forall s k v bud s',
+    Reach BS bs0 (decode_fn (c_bound c)) h (c_cap c) (c_unlimited c) (c_wf0 c) start_fn (next_fn (c_probing c)) max_log
+          (Binv_of (c_bound c)) s ->
+    step_gen c h s (OInsert k v bud) = (s', RExn) ->
+    ~ (count s < capacity s) /\
+    (calc_capacity (c_pol c) (c_cap c) (2 ^ newLog BS (c_logStart c) (shift_fn (c_pol c) (c_cap c)) (gens s)) <= count s \/
+     max_log < newLog BS (c_logStart c) (shift_fn (c_pol c) (c_cap c)) (gens s)).
+Proof. exact momo_never_table_full. Qed.
+Print Assumptions C01_momo_never_table_full.
+
+(* ---------- in-bucket search: the short-hash filter of Bucket::Find never skips a stored key ----------
+   find_sh mirrors `for (i < maxCount) if (shortHashes[i] == shortHash && itemPred(items[i])) return`; if every stored item
+   carries the short hash of its own hash code and the unused slots carry bytes >= the empty marker, the scan neither reads an
+   unused slot nor misses the key, and returns exactly the plain key search used by the hash-table model. *)
+Theorem C01_bucket_find_complete :
+  forall (h : Z -> Z) (calcSH : Z -> Z) (emptyFrom : Z), (forall k, calcSH (h k) < emptyFrom) ->
+    forall k its empties i, Forall (fun s => emptyFrom <= s) empties ->
+      find_sh (map (tag h calcSH) its ++ empties) its (calcSH (h k)) k i = Some (bfind k its i).
+Proof. exact bucket_find_complete. Qed.
+Print Assumptions C01_bucket_find_complete.
+
+(* ... instantiated with the pvCalcShortHash / ptCalcShortHash regenerated from LimP4, Open2N2 (8-bit variant), OpenN1 (= the
+   scalar loop of Open8), for every hash function with size_t values *)
+Theorem C01_limp4_find_complete :
+  forall (h : Z -> Z), (forall k, 0 <= h k < 2 ^ 64) -> forall k its empties i,
+    Forall (fun s => 128 <= s) empties ->
+    find_sh (map (tag h Gen_LimP4.pvCalcShortHash) its ++ empties) its (Gen_LimP4.pvCalcShortHash (h k)) k i = Some (bfind k its i).
+Proof. exact limp4_find_complete. Qed.
+Print Assumptions C01_limp4_find_complete.
+
+Theorem C01_open2n2_find_complete :
+  forall (h : Z -> Z), (forall k, 0 <= h k < 2 ^ 64) -> forall k its empties i,
+    Forall (fun s => 128 <= s) empties ->
+    find_sh (map (tag h Gen_Open2N2.pvCalcShortHash) its ++ empties) its (Gen_Open2N2.pvCalcShortHash (h k)) k i = Some (bfind k its i).
+Proof. exact open2n2_find_complete. Qed.
+Print Assumptions C01_open2n2_find_complete.
+
+Theorem C01_openn1_find_complete :
+  forall (h : Z -> Z), (forall k, 0 <= h k < 2 ^ 64) -> forall k its empties i,
+    Forall (fun s => Gen_OpenN1.emptyShortHash <= s) empties ->
+    find_sh (map (tag h Gen_OpenN1.ptCalcShortHash) its ++ empties) its (Gen_OpenN1.ptCalcShortHash (h k)) k i = Some (bfind k its i).
+Proof. exact openn1_find_complete. Qed.
+Print Assumptions C01_openn1_find_complete.
